@@ -7,7 +7,7 @@ import tempfile
 import numpy as np
 
 from ..core import fb, fbs, unfb, close, allclose, fingerprint, safe_oracle
-from ..synth import SynthModel
+from ..synth import SynthModel, BlocksModel
 from .. import eleccommon as ec
 
 REGISTERED = ["simple", "dual", "extended", "super", "shin-metiu", "modelx", "models", "modelw", "modelz", "vibronic"]
@@ -24,6 +24,9 @@ def make_model(spec):
         kw["representation"] = spec["representation"]
     if name == "subotnik2d":
         return mod.Subotnik2D(**kw)
+    if name == "blocks":
+        kw.pop("representation", None)
+        return BlocksModel(**kw)
     if name == "synth":
         rng = np.random.Generator(np.random.PCG64(spec["seed"]))
         return SynthModel(rng, spec["N"], spec["n"], representation=spec.get("representation", "adiabatic"))
@@ -51,6 +54,10 @@ def random_spec(rng, name):
             kw = dict(nstates=int(rng.choice([2, 4, 6, 8, 10])), eps=float(rng.uniform(0.05, 0.2)))
         elif name == "shin-metiu":
             kw = dict(nstates=int(rng.integers(2, 5)), nel=32)
+    if name == "blocks":
+        nd = int(rng.integers(1, 3))
+        kw = dict(ndim=nd, mass=[float(v) for v in 10 ** rng.uniform(2.5, 3.5, size=nd)], k=float(rng.uniform(0.005, 0.02)),
+                  g=float(rng.uniform(0.002, 0.008)), D=float(rng.uniform(0.1, 0.3)), t=float(rng.uniform(0.01, 0.05)))
     if name == "shin-metiu" and "nel" not in kw:
         kw["nel"] = 32
     if name == "subotnik2d":
@@ -64,6 +71,11 @@ def random_position(rng, model, name):
         return rng.uniform(-6, 6, size=n)
     if name == "vibronic":
         return rng.normal(size=n) * 0.5
+    if name == "blocks":
+        x = rng.uniform(-2, 2, size=n)
+        if abs(x[0]) < 0.2:
+            x[0] = 0.2 if x[0] >= 0 else -0.2     # the symmetry-allowed crossing itself (x = 0) is a degeneracy
+        return x
     if name in ("modelw", "modelz"):
         return rng.uniform(-0.5, 0.5, size=n)
     x = rng.uniform(-8, 8, size=n)
@@ -146,7 +158,12 @@ def oracle_model(args):
     diag = max(float(np.max(np.abs(dc[i, i, :]))) for i in range(N))
     if diag != 0.0:
         problems.append("derivative coupling has a non-zero diagonal (%.3g)" % diag)
-    if rep == "adiabatic":
+    if args.get("degenerate"):
+        # at an exact degeneracy the eigenvectors (hence forces and couplings) are not unique and the surfaces are not smooth:
+        # only the algebraic facts above (symmetric H, shapes, dV = grad V, antisymmetric coupling with zero diagonal) are judged
+        if np.min(np.abs(np.diff(E))) != 0.0:
+            problems.append("the point was meant to be exactly degenerate (harness)")
+    elif rep == "adiabatic":
         gaps_ok = np.min(np.abs(np.diff(E))) > 1e-6 if N > 1 else True
         # force = -grad E_i  (state energies along each coordinate, sign-tracked states)
         # neighbouring points are requested either on the shared model object or on the result itself
@@ -368,7 +385,7 @@ def run(ctx):
         "mudslide/models/scattering_models.py", ["V", "dV"])
     ctx.proofs()
     rng = ctx.rng
-    names = REGISTERED + ["subotnik2d", "synth"]
+    names = REGISTERED + ["subotnik2d", "synth", "blocks"]
     lines, keep = [], []
     per = ctx.budget(4, 120)
     for name in names:
@@ -380,8 +397,13 @@ def run(ctx):
                 if name == "super" and r == 1:
                     delta = float(10 ** rng.uniform(-6, -5.4))
                     spec["kwargs"] = dict(v11=0.5, v22=0.5 + delta, v33=0.6, v12=float(rng.uniform(0.2, 0.6)) * delta, v23=1e-4)
-            if name not in ("shin-metiu",) and r % 4 == 3:
+            if name not in ("shin-metiu", "blocks") and r % 4 == 3:
                 spec["representation"] = "diabatic"
+            if name == "vibronic" and r % 4 == 2:
+                # exactly ON the conical intersection (E1 == E2, origin): the two adiabatic energies are bit-for-bit equal, the
+                # gap guard of the derivative coupling is what is exercised; only the algebraic facts are judged there
+                spec["kwargs"] = dict(E1=9.0, E2=9.0)
+                spec["degenerate"] = True
             try:
                 model = make_model(spec)
             except Exception as e:
@@ -390,6 +412,9 @@ def run(ctx):
                 ctx.oracle_fail("model-constructor:" + name, "model", dict(spec, x=[0.0]), obs, req, text)
                 continue
             x = random_position(rng, model, name)
+            if spec.get("degenerate"):
+                x = np.zeros(model.ndim())
+                ctx.count("exactly_degenerate_points")
             spec["x"] = x
             if r % 2 == 1 and name != "shin-metiu":
                 spec["chained"] = True
@@ -404,7 +429,7 @@ def run(ctx):
                 ctx.oracle_fail("model-update-raises:" + name, "model", spec, obs, req, text)
                 continue
             N, n = model.nstates(), model.ndim()
-            if spec.get("representation") != "diabatic" and name != "shin-metiu":
+            if spec.get("representation") != "diabatic" and name not in ("shin-metiu", "blocks"):
                 ctx.monitor("eigh_orthonormality", cap.worst_orth)
                 # raw eigenvectors are unique up to the signs the sign fix removes, so a model class that diagonalises V by some
                 # other route than numpy.linalg.eigh is compared through the harness's own decomposition of its V(x)
